@@ -33,10 +33,34 @@ def same_state(interp, a, b, ignore=(), path="$"):
     ign = set(interp.bm.iterate(interp, ignore)) if not isinstance(ignore, (set, tuple)) else set(ignore)
     ign |= {k.lstrip("_") for k in ign}     # ignoring a private attribute ignores the public property of the same name
     seen = {}
+    mode = {"strict": False, "seen_strict": {}}
 
     def rec(x, y):
         if isinstance(x, Instance) and isinstance(y, Instance):
             if x is y:
+                return True
+            if mode["strict"]:
+                # attribute-for-attribute comparison, private ones included (used as a fast path only, see below)
+                key = (id(x), id(y))
+                if key in mode["seen_strict"]:
+                    return True
+                mode["seen_strict"][key] = True
+                if x.cls is not y.cls:
+                    return False
+                kx = {k for k in x.fields if k not in ign}
+                ky = {k for k in y.fields if k not in ign}
+                if kx != ky:
+                    return False
+                return ops.b_and(*[interp.symtruth(rec(x.fields[k], y.fields[k])) for k in sorted(kx)])
+            # fast path: two object graphs that are attribute-for-attribute identical (the usual case: "the caller's object is
+            # untouched") are observably identical; no property getter needs to run
+            mode["strict"] = True
+            mode["seen_strict"] = {}
+            try:
+                identical = rec(x, y)
+            finally:
+                mode["strict"] = False
+            if identical is True:
                 return True
             key = (id(x), id(y))
             if key in seen:
